@@ -12,6 +12,11 @@
        the kernel buffer or the TLS layer holds unread bytes; all bytes are read by EOF.
        Plus real loopback TCP and TLS runs (wall clock): bursts up to ~300 KB and hundreds of small
        frames per TLS record must be delivered, and Pings answered, far below the poll interval.
+   (D) draining while ANOTHER application thread is inside a send, blocked in sendall() on back-pressure and holding the
+       write lock (deterministic scheduler harness/sched.py, as in C11 family (a2)): the sender is paused before a chunk of
+       its sendall, a message is made available to the loop thread and ONLY the loop thread is scheduled; the message
+       event must be yielded before the sender makes any progress, and no entry of the loop thread may find it waiting
+       for the lock (oracle from the property text; the runs are also compared with the thread model, driver op `threads`).
 """
 from __future__ import annotations
 import collections, hashlib, json, os, random, shutil, socket, ssl, subprocess, threading, base64
@@ -22,7 +27,9 @@ TRUSTED = ['harness/translate.py (BUFFER_SIZE)',
            'correspondence: harness/props/c18.py (simulated plain / TLS-like socket, virtual clock, selector subclass)',
            'the simulated transport semantics: level-triggered poll(2), recv_into = min(count, available), '
            'one TLS record decrypted per read, pending() = decrypted unread bytes, fd readable iff undecrypted records exist',
-           'loopback runs: the OS TCP stack, CPython ssl / OpenSSL (validate the modelled semantics, wall-clock bounds)']
+           'loopback runs: the OS TCP stack, CPython ssl / OpenSSL (validate the modelled semantics, wall-clock bounds)',
+           'family drain-while-sender-blocked: harness/sched.py (deterministic scheduler; a sender paused before a chunk of its sendall '
+           '= a sendall blocked on back-pressure) and harness/thrutil.py (comparison with the thread model Model/ThreadsN.lean)']
 ASSUMPTIONS = ['poll(2) level-triggering and OpenSSL record / pending() behaviour are MODELLED (Model/Transport.lean, and '
                'independently in this file); they are validated only by the real loopback TCP/TLS runs',
                'KQueueSelector / SelectSelector are not reachable on this platform (PollSelector is what the loopback runs use)',
@@ -30,6 +37,9 @@ ASSUMPTIONS = ['poll(2) level-triggering and OpenSSL record / pending() behaviou
                'processing takes zero virtual time',
                'TLS records of real OpenSSL never exceed 16384 bytes, so with a 64 KiB read pending() is 0 after every read; '
                'the pending() short-cut is exercised with TLS-like records larger than the buffer (any socket exposing pending())',
+               'family drain-while-sender-blocked: the received messages are compressed Text messages (the scheduler harness scripts '
+               'only those: `rm` / `rm2`), so permessage-deflate is negotiated in these runs; frames that need a REPLY (Ping, Close) are '
+               'placed after the data messages only - their reply needs the wire the blocked sender occupies, so its delay is not a finding',
                'loopback latency bound %.1fs is wall clock on a shared machine; the poll interval there is %ds']
 
 LEANCHECK_MODULES = ['Lomond.Model.Transport', 'Lomond.Proofs.Transport', 'Lomond.Proofs.TransportLive']
@@ -614,6 +624,225 @@ def corpus():
 
 
 # ---------------------------------------------------------------------------------------------
+# (D) available data is drained while another thread is blocked inside a send (deterministic thread scheduler)
+
+DRAIN_LOOP_ENTRIES = 40         # schedule entries given to the loop thread per scripted receive (a receive takes ~10 sync steps)
+REPLY_CALLS = ('rp', 'rc', 'tk')
+
+
+def _dmsg(tag, n):
+    base = ('%s drained while a sender is blocked, lomond drain payload ' % tag).encode()
+    return (base * (n // len(base) + 1))[:n]
+
+
+def _loop_tid(progs):
+    import sched
+    return next(t for t, p in enumerate(progs) if sched.is_loop_prog(p))
+
+
+def run_drain_case(case):
+    """worker entry: one (programs, schedule) case on the real code under harness/sched.py.  The position in the step log at which
+    each Text event reaches the application is recorded from outside (the `received` list of the run object notes the number of
+    sync steps executed so far on every append): out['received_at']"""
+    import sched
+    holder = {}
+
+    class _Rec(list):
+        def __init__(self, run):
+            list.__init__(self)
+            self.run, self.at = run, []
+
+        def append(self, x):
+            self.at.append(len(self.run.sched.steps))
+            list.append(self, x)
+
+    base_run = sched.Run
+
+    class _Run(base_run):
+        def __init__(self):
+            base_run.__init__(self)
+            self.received = _Rec(self)
+            holder['run'] = self
+    sched.Run = _Run
+    try:
+        out = sched.run_real({k: v for k, v in case.items() if k in ('z', 'progs', 'schedule', 'mode', 'n', 'fail')})
+    except sched.SchedError as e:
+        return {'__crash__': 'SchedError: %s' % e, 'tb': '', 'input': case}
+    finally:
+        sched.Run = base_run
+    out['received_at'] = list(holder['run'].received.at)
+    return out
+
+
+def judge_drain(case, r):
+    """from the property text: at step `prefix` of the run a sender holds the write lock inside sendall() and does not get the CPU any
+    more (it is blocked on back-pressure); the data of the loop thread's scripted receives is available.  Every message that needs no
+    reply must be yielded by the loop thread before the sender (or anyone else) makes progress, and the loop thread must never be
+    found waiting for the lock before that."""
+    fails = []
+    progs = case['progs']
+    L = _loop_tid(progs)
+    p = case['prefix']
+    need = 0
+    for tok in progs[L]:
+        if tok.split('=')[0] in REPLY_CALLS:
+            break
+        need += 1
+    steps = [tuple(s) for s in r['steps']]
+    at = r['received_at']
+    sent, got = r.get('server_sent', []), r.get('received', [])
+
+    def fail(cls, what, **kw):
+        fails.append(dict(cls=cls, what=what, input=case, observed=kw.get('observed'), expected=kw.get('expected')))
+    if any(t == L for t, _ in steps[:p]) or [t for t, _ in steps[:p]] != case['schedule'][:p]:
+        return [dict(cls='harness', what='the prefix of the schedule was not executed as planned', input=case, observed=steps[:p + 2])]
+    holder = [t for t, k in steps[:p] if k == 'acq'][-1:]
+    shown = ' '.join('%d:%s' % s for s in steps[max(0, p - 3):p + 12])
+    budget = DRAIN_LOOP_ENTRIES * len(progs[L])
+    for idx in range(p, len(steps) + 1):
+        delivered = sum(1 for a in at if a <= idx)
+        if delivered >= need:
+            break
+        if idx == len(steps):
+            fail('not-delivered', 'only %d of the %d available message(s) were delivered by the end of the run' % (delivered, need),
+                 observed=shown)
+            break
+        t, k = steps[idx]
+        if idx - p >= budget:
+            return [dict(cls='harness', what='schedule too short: the loop thread used all its %d entries' % budget, input=case, observed=shown)]
+        if t == L and k == 'blocked':
+            fail('drain-waits-for-sender', 'with message %d of %d available and only the loop thread scheduled, the loop thread was found WAITING FOR THE WRITE LOCK '
+                 'held by thread %s, which is blocked inside sendall() (paused before a chunk): available data is not drained until the send completes, '
+                 'which needs further network traffic' % (delivered + 1, need, holder[0] if holder else '?'),
+                 observed=shown, expected='the Text event for every available message before any further step of the sender')
+            break
+        if t != L:
+            fail('drain-waits-for-sender', 'thread %d (step %s) made progress before available message %d of %d was delivered' % (t, k, delivered + 1, need),
+                 observed=shown, expected='the Text event for every available message before any further step of the sender')
+            break
+    if got[:need] != sent[:len(got[:need])]:
+        fail('not-delivered', 'the delivered messages are not the ones the server sent', observed=got[:need], expected=sent[:need])
+    return fails
+
+
+def drain_cases(rng, tier):
+    """(sender program(s)) x (chunks per sendall) x (EVERY chunk of every sendall as the point at which the sender is blocked) x
+    (what is available to the loop thread) x deflate mode 1..4; a second sender waiting for the lock; a sendall that fails in the end"""
+    import sched
+    quick = tier == 'quick'
+    big = bytes((i * 7 + 3) % 251 for i in range(BUF + 4464))
+
+    def snd(kind, data):
+        return '%s=%s' % (kind, bytes(data).hex())
+    senders = [
+        ('binary', [snd('sb0', _dmsg('b', rng.choice([1, 90, 126, 300])))]),
+        ('text-deflate', [snd('st1', _dmsg('t', rng.choice([40, 200])))]),
+        ('ping', [snd('pi', _dmsg('p', rng.randint(0, 125)))]),
+        ('two-sends', [snd('st0', _dmsg('x', 60)), snd('sb1', _dmsg('y', rng.choice([10, 500])))]),
+        ('big-frame', [snd('sb0', big)]),
+    ]
+    if not quick:
+        senders += [('pong', [snd('po', _dmsg('q', 5))]), ('text', [snd('st0', _dmsg('u', 65536))]),
+                    ('three-sends', [snd('sb1', _dmsg('i', 33)), snd('pi', b''), snd('st1', _dmsg('k', 3000))])]
+
+    def rcv(kind, n):
+        return '%s=%s' % (kind, _dmsg('server %s' % kind, n).hex())
+    loops = [
+        ('one-message', [rcv('rm', rng.choice([0, 5, 130]))]),
+        ('fragmented', [rcv('rm2', rng.choice([20, 400]))]),
+        ('three-receives', [rcv('rm', 70), rcv('rm2', 200), rcv('rm', 1)]),
+        ('message-then-ping', [rcv('rm', 30), 'rp=' + b'ping'.hex()]),
+    ]
+    if not quick:
+        loops += [('big-message', [rcv('rm', 60000)]), ('five-receives', [rcv('rm', rng.randint(0, 300)) for _ in range(5)]),
+                  ('message-then-silence', [rcv('rm2', 50), 'tk'])]
+    out = []
+    cal = {}
+    zrot = 0
+    for sname, sprog in senders:
+        for n in ((1, 2, 3) if quick else (1, 2, 3, 4, 6)):
+            if sname == 'big-frame' and quick and n != 2:
+                continue
+            key = (sname, n)
+            c = sched.run_real(dict(z=1, progs=[sprog], schedule=[], mode='sync', n=n))
+            cal[key] = c['steps']
+            # the sender is blocked inside sendall: its next step is the write of a chunk (before the first: the send buffer was full already)
+            pauses = [j for j, (t, k) in enumerate(c['steps']) if k in ('w1', 'w2')]
+            for lname, lprog in loops:
+                for j in pauses:
+                    zrot += 1
+                    z = 1 + zrot % 4
+                    k = DRAIN_LOOP_ENTRIES * len(lprog)
+                    base = dict(z=z, mode='sync', n=n, prefix=j, family='drain-while-sender-blocked')
+                    out.append(dict(base, tag='drain-blocked-sender/%s/%s/n%d/at%d' % (sname, lname, n, j), progs=[sprog, lprog],
+                                    schedule=[0] * j + [1] * k))
+                    if (zrot % 3 == 0 or not quick) and sname != 'big-frame':
+                        # a second sender is waiting for the lock as well (two entries: it reaches the lock and waits)
+                        other = [snd('st0', _dmsg('w', 20))]
+                        pre = [0] * j + [1] * 2
+                        out.append(dict(base, tag='drain-blocked-sender+waiting-sender/%s/%s/n%d/at%d' % (sname, lname, n, j),
+                                        progs=[sprog, other, lprog], prefix=len(pre), schedule=pre + [2] * k))
+                    if (zrot % 5 == 0 or not quick) and n >= 2 and c['steps'][j][1] == 'w1' and len(sprog) == 1:
+                        # the blocked sendall fails in the end (the peer never read): draining must not have waited for that either
+                        nth = sum(1 for t, kk in c['steps'][:j] if kk == 'w1')
+                        out.append(dict(base, tag='drain-blocked-sender+send-fails/%s/%s/n%d/at%d' % (sname, lname, n, j), progs=[sprog, lprog],
+                                        schedule=[0] * j + [1] * k, fail=[[0, 0, nth]]))
+    return out
+
+
+def _chunks_out(steps):
+    """chunks the lock holder's current sendall has written (w1 steps of thread 0 since its last acq)"""
+    n = 0
+    for t, k in steps:
+        if t == 0 and k == 'acq':
+            n = 0
+        elif t == 0 and k == 'w1':
+            n += 1
+    return n
+
+
+def explore_drain(res, rng, tier, model_ok):
+    import thrutil
+    cases = drain_cases(rng, tier)
+    outs = runner.parallel_map('props.c18', 'run_drain_case', cases, chunk=20)
+    v = thrutil.detect_variant()
+    good = [(c, r) for c, r in zip(cases, outs) if '__crash__' not in r]
+    for c, r in zip(cases, outs):
+        if '__crash__' in r:
+            res.crashes.append(r)
+    lines = [thrutil.model_line(c, r['steps'], v) for c, r in good]
+    models = runner.model_run(lines) if (model_ok and lines) else [None] * len(lines)
+    models = thrutil.align_models(res, good, models)
+    res.notes.append('drain-while-sender-blocked: %d scheduler runs (sender paused before every chunk of every sendall, only the loop thread scheduled); '
+                     '%s' % (len(good), 'compared with the thread model (driver op `threads`, variant v=%s)' % v if model_ok else 'ORACLE ONLY (no model driver)'))
+    nfail = 0
+    for (c, r), line, m in zip(good, lines, models):
+        res.case(('drain', c['z'], thrutil.progs_str(c), tuple(c['schedule'][:c['prefix']]), thrutil.env_keys(c)), nontrivial=True)
+        res.count(c['tag'].split('/')[0] + ('' if model_ok else ' (oracle only)'))
+        res.count('drain-blocked-sender: chunks per sendall %s' % c['n'])
+        res.count('drain-blocked-sender: blocked before chunk %d' % (1 + _chunks_out(r['steps'][:c['prefix']])))
+        res.traces_validated += 1
+        hard = thrutil.hard_problems(list(r['problems']))
+        thrutil.note_soft_problems(res, list(r['problems']))
+        real_line = thrutil.canon_real(c, r)
+        if hard:
+            res.diffs.append(dict(input=c, real=real_line[-1500:], model='(harness) ' + '; '.join(hard)[:800]))
+        if m is not None and not thrutil.same_observables(thrutil.strip_peer(m)[0], real_line):
+            res.diffs.append(dict(input=c, line=line, real=real_line[-2500:], model=thrutil.strip_peer(m)[0][-2500:]))
+        for f in judge_drain(c, r):
+            if f['cls'] == 'harness':
+                res.crashes.append({'__crash__': f['what'], 'tb': '', 'input': c})
+                continue
+            nfail += 1
+            res.count('oracle_' + f['cls'])
+            if nfail <= 25:
+                res.failures.append(f)
+    res.exhaustive['sender_blocked_before_every_chunk_of_every_sendall (x what is available x chunks per sendall)'] = len(good)
+    if cases:
+        res.samples.append(dict(tag=cases[0]['tag'], z=cases[0]['z'], programs=thrutil.progs_str(cases[0])[:200], schedule=''.join(map(str, cases[0]['schedule']))[:80]))
+
+
+# ---------------------------------------------------------------------------------------------
 # real loopback runs (wall clock)
 
 def _cert():
@@ -808,6 +1037,9 @@ def explore(res, tier, seed, model_ok=True):
                 'families small-frames (20-400 frames of 0-200 bytes, many per record), record-edge (messages of 16384+-40), buffer-edge (65536+-, 131072+-), big (200-300 KB), compressed (permessage-deflate negotiated: compressed fragmented messages incl. empty final fragments, pings in between); '
                 'segmentation whole / random cuts / boundary-size bursts / whole frames; gaps 0 (same-tick bursts) .. 3*poll (timeouts in between); '
                 'exhaustive grid: burst size {16383,16384,16385,32768,65535,65536,65537,131071,131072,131073} x transport x gap; '
+                'family drain-while-sender-blocked (deterministic thread scheduler): another application thread (Binary / Text / compressed Text / Ping / two sends / a frame > BUFFER_SIZE; '
+                'sendall in 1-3 (thorough: 1-6) chunks) is paused before EVERY chunk of every sendall, holding the write lock = blocked on back-pressure; then 1-3 (thorough: -5) compressed messages '
+                '(single frame / fragmented; optionally followed by a Ping or by silence) become available and only the loop thread is scheduled; variants with a second sender waiting for the lock and with the blocked sendall failing in the end; '
                 'plus real loopback TCP and TLS echo rounds; non-trivial = some arrival carries more than one frame, or exceeds a record / the buffer, or a timeout separates arrivals; '
                 'distinct by (transport, poll, messages, arrivals)')
     # every platform selector on a real transport (TCP loopback / AF_UNIX pairs; connections ended by FIN / RST at several points):
@@ -861,6 +1093,8 @@ def explore(res, tier, seed, model_ok=True):
     if cases:
         res.samples += [dict(tag=c['tag'], poll=c['poll'], eof=c['eof'], messages=len(c['msgs']), arrivals=c['arr'][:6]) for c in cases[:2] + cases[-2:]]
         res.samples.append(model_line(cases[0])[:300])
+    # ---- (D) draining while another thread is blocked inside a send ----------------------------------
+    explore_drain(res, rng, tier, model_ok)
     # ---- real loopback runs ------------------------------------------------------------------------
     nround = 4 if tier == 'quick' else 12
     for tls in (False, True):
@@ -894,6 +1128,22 @@ def explore(res, tier, seed, model_ok=True):
 def replay(rp):
     _set_buf()
     case = rp.get('input')
+    if isinstance(case, dict) and 'progs' in case:
+        import thrutil
+        r = run_drain_case(case)
+        print('case', case.get('tag'))
+        print('programs : %s   (deflate mode z=%d, sendall in %s chunk(s)%s)' % (thrutil.progs_str(case), case['z'], case.get('n', 2),
+                                                                               ', made to fail: %s' % case['fail'] if case.get('fail') else ''))
+        print('schedule : %s   (the first %d entries bring the sender(s) into position; then only the loop thread is scheduled)' % (
+            ''.join(str(t) for t in case['schedule']), case['prefix']))
+        if '__crash__' in r:
+            print('scheduler:', r['__crash__'])
+            return 0
+        print('sync steps executed: ' + ' '.join('%d:%s' % tuple(s) for s in r['steps']))
+        print('Text events reached the application after step(s): %s   results: %r' % (r['received_at'], r['results']))
+        for f in judge_drain(case, r):
+            print('ORACLE:', f['cls'], '-', f['what'])
+        return 0
     if isinstance(case, dict) and 'arr' in case:
         out = run_case(case)
         print('case', case.get('tag'), 'tls=%s poll=%s eof=%s arrivals=%s' % (case['tls'], case['poll'], case['eof'], case['arr'][:12]))
